@@ -13,7 +13,7 @@ META = dict(
                 'the touched index as specified, every other index exactly as before (get, is_cleared, is_set, iterate). (b) Histories of 3 (thorough 4) solver-chosen operations from the empty store over sparse / descending / repeated indices, '
                 'reads compared after every step. For every data type: int, uint, float, bool, obj, with and without default value. (c) mapper: one operation (lookup-or-create as group_by does, parent key completion + re-creation, read) from an arbitrary map state of 2 parent keys x 2 map keys inserted in a solver-chosen order after an earlier parent with 0..2 groups has completed: '
                 'indices handed out are never equal to one in use, get_map returns the mapped index or NOTSET, iterate_map enumerates exactly the mapped keys in insertion order.',
-    bounds=dict(quick='K <= 3 slots, touched index in {first, last, beyond the end}, values any int (floats: 2 concrete doubles chosen by the solver), histories of 3 operations over indices {0,2,4}, mapper: 16 pre-states x 12 operations',
+    bounds=dict(quick='K <= 3 slots, touched index in {first, last, beyond the end}, values any int (floats: 2 concrete doubles chosen by the solver), histories of 3 operations over indices {0,2,4}, mapper: 16 pre-states x 12 operations; long-but-narrow: indices next to powers of two up to 256, 9-40 mapped groups under two parents incl. a release phase (all but two low groups unmapped in ascending / descending order, as many new groups mapped)',
                 thorough='K <= 4 slots, histories of 4 operations'),
     outside='operations on an index that was never added or is cleared (outside the store contract: callers add_key first); partitioned StoreManager; rocksdb store',
     assumptions=['contract: set/get/del_key are only called on a live (added, not deleted) index - this is what every rxsci operator does'],
